@@ -44,9 +44,12 @@ def run(check: Check, repo: Repo, tier: str) -> None:
     check.floor("CACHE-ALIAS", 20, "container mutation sites in validation/")
     V.typeinfo_balance(check, repo, classes)
     V.limit(check, repo)
+    V.report_discipline(check, repo, vmods)
+    check.floor("REPORT-DISCIPLINE", 55, "report_error call sites in validation/")
     from rules import exec_rules as X
     X.memo_discovery(check, repo, ctx)
     check.floor("MEMO-KEY-COVER", 3, "memo tables of the validation context")
+    G.mutable_class_attr(check, vmods + [repo.mod("utilities.type_info")])
     G.mutable_default(check, [f for m in vmods + [repo.mod("utilities.type_info")] for f in m.functions()])
     check.floor("MUTABLE-DEFAULT", 3, "functions with default parameter values in validation/")
     V.default_is_none(check, repo, [repo.func('validation.validate', 'validate'), repo.func('validation.validate', 'validate_sdl')])
